@@ -817,6 +817,11 @@ def drive_generic(env, g, b, h):
     call(g, 'update_link_properties', node_a=b['switch'], node_b=fac, kind=A.REL_HAS,
          props={'Weight': v('w'), 'Colour': v('blue')})
     call(g, 'update_link_properties', node_a=b['switch'], node_b=fac, kind=A.REL_HAS, props={})
+    # read-modify-write: what get_link_properties() returns (Class among it, first) with entries edited, handed back
+    call(g, 'update_link_properties', node_a=b['switch'], node_b=fac, kind=A.REL_HAS,
+         props={'Class': A.REL_HAS, 'Weight': v('w'), 'Colour': v('blue')})
+    call(g, 'update_link_properties', node_a=b['switch'], node_b=fac, kind=A.REL_HAS,
+         props={'Weight': v('w'), 'Class': A.REL_HAS, 'Colour': v('blue')})
     call(g, 'update_link_properties', node_a=b['switch'], node_b=fac, kind=A.REL_HAS, props={'Weight': v('w')})
     call(g, 'update_node_properties', node_id=b['server'], props={'Custom_2': v('x')})
     call(g, 'unset_link_property', node_a=b['switch'], node_b=fac, kind=A.REL_HAS, prop_name='Note')
